@@ -1017,7 +1017,7 @@ fn run_observer(chk: &xs::Check, tier: xs::Tier, pid: &'static str, report: PRep
                 // second engine: stateright's own BFS and xs on the SAME system - the variant without
                 // the depth-limited actions (pauses, storms, pumps), which stateright cannot be told
                 // the depth for - must agree on the number of canonical states
-                if out.found.is_empty() {
+                if out.found.is_empty() && chk.violation_count() == 0 {
                     let plain = || {
                         let mut s = fine(PollSys::new(pid, c, t, 1, &v3, false, report).with_timeout_us(t_us));
                         s.pauses.clear();
